@@ -462,6 +462,9 @@ def _sig_match(pattern, sig):
     return pattern == sig
 
 
+REPLAY_NATIVE = {"C05", "C07", "C09", "C10", "C11", "C15", "C16", "C19"}
+
+
 def main(run, pid, level):
     """Entry point used by checks/<id>.py: run(check, args) may raise MachineryFault -> exit 2."""
     import argparse
@@ -469,10 +472,28 @@ def main(run, pid, level):
     ap.add_argument("--tier", default=os.environ.get("VERIF_TIER", "quick"))
     ap.add_argument("--replay", default=None)
     a = ap.parse_args(sys.argv[2:] if len(sys.argv) > 1 and sys.argv[1] == pid else sys.argv[1:])
+    want = None
+    if a.replay and pid not in REPLAY_NATIVE:
+        # generic replay: the file written next to a VIOLATION line records signature, seed and tier; the check is re-executed with
+        # that seed and tier and the outcome says whether the same signature is reported again (the checks listed in REPLAY_NATIVE
+        # re-execute just the recorded case instead)
+        try:
+            rf = json.load(open(a.replay))
+            want = rf["signature"]
+            os.environ["VERIF_SEED"] = str(rf.get("seed", 1))
+            a.tier = rf.get("tier", a.tier)
+        except Exception as ex:
+            log("MACHINERY-FAULT property=%s: cannot read replay file %s: %s" % (pid, a.replay, ex))
+            sys.exit(2)
+        log("[replay] %s: signature %s, seed %s, tier %s\n  %s" % (a.replay, want, os.environ["VERIF_SEED"], a.tier, str(rf.get("what", ""))[:400]))
+        a.replay = None
     chk = Check(pid, a.tier, level)
     try:
         run(chk, a)
     except MachineryFault as ex:
         log("MACHINERY-FAULT property=%s: %s" % (pid, ex))
         sys.exit(2)
+    if want is not None:
+        again = any(v[0] == want for v in chk.violations) or any(k[0] == want or _sig_match(k[0], want) for k in chk.known)
+        print("REPLAY property=%s signature=%s reproduced=%s" % (pid, want, "yes" if again else "no"))
     sys.exit(chk.finish())
